@@ -135,6 +135,7 @@ def run(ctx):
     for _ in range(2 if quick else 10):
         final.append((lang.float_program(rng), [], 0))
         final.append((lang.nan_program(rng), [], 0))
+        final.append((lang.alias_program(rng), [], 0))      # handle semantics of arrays: outside the (value) reference model too
     wit = [(w, WITNESSES[w]) for w in sorted(WITNESSES)]
     texts = [t for t, _, _ in final] + [t for _, t in wit]
     sem = lang.run_sem(driver, "native", texts)
